@@ -855,6 +855,84 @@ fn c14(r: &Runner) {
             }
         }
     });
+    // dense sweep of the 40-bit prefix d40 = d >> 24 that the seed refinement of reciprocal() depends on:
+    // for every one of the 256 table rows the first and the last 2^K prefixes of the row (the table seed is
+    // floor(..) of the row start, so the refinement is most stressed at the two ends of a row)
+    let k: u32 = if r.is_thorough() { 24 } else { 21 };
+    r.universe(&format!("reciprocal: 256 table rows x first/last 2^{k} values of the 40-bit prefix (tight loop, u128 reference)"), 64, 256 * 32, |i, l| {
+        let row = 256 + (i / 32) as u64;
+        let part = (i % 32) as u64; // 16 chunks at the start, 16 at the end
+        let per = (1u64 << k) / 16;
+        let mut n = 0u64;
+        for j in 0..per {
+            let off40 = if part < 16 { part * per + j } else { (1u64 << 31) - 1 - ((part - 16) * per + j) };
+            // low 24 bits: 0 at the start of the row, all ones at the end (extremes of the remaining freedom)
+            let d = (row << 55) | (off40 << 24) | if part < 16 { 0 } else { 0xff_ffff };
+            let e = (u128::MAX / d as u128 - (1u128 << 64)) as u64;
+            n += 1;
+            if alg::div::reciprocal(d) != e {
+                k::exec(l, 64, K::reciprocal, &[V::N(d as u128)]);
+            }
+        }
+        l.states(n);
+        l.bulk("reciprocal", n, n, 1);
+    });
+    // reciprocal_2: divisors SOLVED for so that the second-stage sum lands exactly on (or next to) d1, the
+    // operand of the final tie-break comparison (a path of density 2^-64 under any product universe)
+    r.universe(&format!("reciprocal_2: for {} high words d1, low words d0 solved such that the second-stage partial sum equals d1 +- 2", ds.len()), 128, ds.len(), |i, l| {
+        let d1 = ds[i];
+        let v0 = (u128::MAX / d1 as u128 - (1u128 << 64)) as u64;
+        // replica of the two stages (only used to steer the search; the verdict comes from the oracle)
+        let stage = |d0: u64| -> (u64, bool) {
+            let mut v = v0;
+            let mut p = d1.wrapping_mul(v).wrapping_add(d0);
+            if p < d0 {
+                v = v.wrapping_sub(1);
+                if p >= d1 {
+                    v = v.wrapping_sub(1);
+                    p = p.wrapping_sub(d1);
+                }
+                p = p.wrapping_sub(d1);
+            }
+            let t1 = ((v as u128 * d0 as u128) >> 64) as u64;
+            let p2 = p.wrapping_add(t1);
+            (p2, p2 < t1)
+        };
+        let mut cands: Vec<u64> = vec![];
+        // g(d0) = p2 - d1 (mod 2^64) is piecewise increasing in d0 with slope in [1, 2): walk towards a zero
+        for start in [0u64, 1 << 62, 1 << 63, 3 << 62, d1, d1.wrapping_mul(0x9E37_79B9_7F4A_7C15), !d1, u64::MAX] {
+            let mut d0 = start;
+            for _ in 0..80 {
+                let (p2, _) = stage(d0);
+                let gap = d1.wrapping_sub(p2); // how far p2 is below d1 (mod 2^64)
+                if gap == 0 {
+                    break;
+                }
+                // slope >= 1: a step of gap/2 never overshoots a zero
+                let step = (gap / 2).max(1);
+                d0 = d0.wrapping_add(step);
+            }
+            for dj in -3i64..=3 {
+                cands.push(d0.wrapping_add(dj as u64));
+            }
+        }
+        cands.sort();
+        cands.dedup();
+        for d0 in cands {
+            l.states(1);
+            k::exec(l, 128, K::reciprocal_2, &[V::U(vec![d0, d1])]);
+            k::exec(l, 128, K::reciprocal_2_mg10, &[V::U(vec![d0, d1])]);
+            // and as a divisor of the 3-by-2 step
+            let d = (d1 as u128) << 64 | d0 as u128;
+            for q in [1u64, u64::MAX, d1] {
+                let n = BigUint::from(q) * BigUint::from(d) + BigUint::from(d0);
+                let nl = to_limbs_n(&n, 3);
+                if ((nl[2] as u128) << 64 | nl[1] as u128) < d {
+                    k::exec(l, 192, K::div_3x2, &[V::U(nl), V::U(vec![d0, d1])]);
+                }
+            }
+        }
+    });
     // div_3x2
     let ds3: Vec<u64> = if r.is_thorough() { ds.clone() } else { ds.iter().step_by(9).copied().collect() };
     let gq3 = golden(if r.is_thorough() { 128 } else { 32 });
